@@ -339,6 +339,10 @@ func VH_C03_influx() {
 		fd := vjDigit("field-digit")
 		line := me + ",host=" + host + " usage=" + fd + "i"
 		want = append(want, row{ts: ts, val: float64(fd[0] - '0'), tp: 2, name: "usage", host: host, measur: me})
+		if vrt.Bool("second-numeric-field") {
+			line += ",idle=2.5"
+			want = append(want, row{ts: ts, val: 2.5, tp: 2, name: "idle", host: host, measur: me})
+		}
 		body += line + " 170000000000000000" + td + "\n"
 	}
 	ctx := context.WithValue(context.Background(), "precision", time.Nanosecond)
@@ -348,16 +352,31 @@ func VH_C03_influx() {
 	err := dec.Decode()
 	vrt.Assert(err == nil, "well-formed-body-accepted")
 	vrt.Assert(len(got) == len(want), "one-row-per-field-or-log-line")
-	for i, w := range want {
-		vrt.Assert(got[i].ts == w.ts, "row-timestamp")
-		vrt.Assert(got[i].tp == w.tp, "row-type")
-		vrt.Assert(got[i].msg == w.msg, "row-line")
-		vrt.Assert(got[i].val == w.val, "row-value")
-		vrt.Assert(voHas(got[i].labels, "measurement", w.measur), "row-measurement-of-its-own-line")
-		vrt.Assert(voHas(got[i].labels, "host", w.host), "row-tag-of-its-own-line")
-		if w.tp == 2 {
-			vrt.Assert(voHas(got[i].labels, "__name__", w.name), "row-named-after-its-field")
+	// the fields of one line come out in map iteration order: rows are matched as a multiset
+	used := make([]bool, len(got))
+	for _, w := range want {
+		found := false
+		for i := range got {
+			if used[i] || got[i].ts != w.ts || got[i].tp != w.tp || got[i].msg != w.msg || got[i].val != w.val {
+				continue
+			}
+			if !voHas(got[i].labels, "measurement", w.measur) || !voHas(got[i].labels, "host", w.host) {
+				continue
+			}
+			wantLabels := 2
+			if w.tp == 2 {
+				if !voHas(got[i].labels, "__name__", w.name) {
+					continue
+				}
+				wantLabels = 3
+			}
+			if len(got[i].labels) != wantLabels {
+				continue
+			}
+			used[i], found = true, true
+			break
 		}
+		vrt.Assert(found, "every-field-or-log-line-has-its-row-with-exactly-its-own-labels")
 	}
 	vrt.Reach("end")
 }
